@@ -9335,6 +9335,16 @@ class SVG(Group):
                             values[SVG_ATTR_TRANSFORM] = viewport_transform
                         values["viewport_transform"] = values[SVG_ATTR_TRANSFORM]
                         width, height = s.viewbox.width, s.viewbox.height
+                    elif context is not None and (s.x != 0 or s.y != 0):
+                        # A nested svg without a viewBox still places its content at (x, y).
+                        viewport_transform = "translate(%s, %s)" % (
+                            Length.str(s.x),
+                            Length.str(s.y),
+                        )
+                        if SVG_ATTR_TRANSFORM in values:
+                            values[SVG_ATTR_TRANSFORM] += " " + viewport_transform
+                        else:
+                            values[SVG_ATTR_TRANSFORM] = viewport_transform
                     if context is None:
                         stack[-1] = (context, values)
                     if context is not None:
